@@ -51,7 +51,7 @@ impl StopController {
         if !stop_strings.is_empty() {
             let mut alts = stop_strings
                 .iter()
-                .map(|s| RegexAst::Regex(s.clone()))
+                .map(|s| RegexAst::Literal(s.clone()))
                 .collect::<Vec<_>>();
             alts.push(rx_ast);
             rx_ast = RegexAst::Or(alts);
